@@ -217,7 +217,7 @@ Definition gg_kc_prog : parsed :=
      p_aliases := []; p_consts := []; p_type_names := []; p_errors := []; p_imports := [] |}.
 
 Lemma go_keyword_content_key_refuted :
-  exists cfg pd text, dom_C10 CGO pd = true /\ known_C10 CGO [] pd = [] /\ known_C10_go_grammar pd = [] /\
+  exists cfg pd text, dom_C10 CGO pd = true /\ known_C10 CGO [] pd = [] /\ known_C10_go_grammar pd = ["C10-go-keyword-name"%string] /\
     go_generate uc_exec cfg pd = Ok text /\ contains_sub (lit "type interface{}") text = true /\ c10_go_recognise text = None.
 Proof.
   exists gg_cfg, gg_kc_prog, (match go_generate uc_exec gg_cfg gg_kc_prog with Ok t => t | _ => [] end).
